@@ -2,6 +2,7 @@
 Coq term printer, and a parallel runner for the real CLI (DESIGN.md section 2)."""
 import concurrent.futures
 import json
+import re
 import os
 import shutil
 import subprocess
@@ -33,7 +34,8 @@ def gen_security(rng, schemes, allow_undeclared=False):
                                  list(reversed(prev["scopes"]))])
         else:
             scopes = rng.choice([[], [], ["read"], ["read", "write"], ["b", "a"], ["read", "read"],
-                                 ["support agent"], ["support", "agent"]])
+                                 ["support agent"], ["support", "agent"], ["orders:read&write"], ["amount<1000", "x>y"],
+                                 ["tenant's"]])
         out.append({"name": name, "scopes": list(scopes)})
     return out
 
@@ -115,6 +117,8 @@ def gen_method(rng, idx, cfg, opts):
                     p["alias"] = other["alias"] or other["name"]
             params.append(p)
     ret = rng.choice([None, "string", "int", "Item", "*Item"]) if opts.get("types", True) else rng.choice([None, "string"])
+    if opts.get("generics") and ret is not None and rng.random() < 0.3:
+        ret = rng.choice(["Page[string]", "Page[int]", "*Page[string]"])
     if opts.get("local_types"):
         if ret in ("Item", "*Item") and rng.random() < 0.5:
             ret = ret.replace("Item", "LocalDto")
@@ -122,13 +126,13 @@ def gen_method(rng, idx, cfg, opts):
             if prm["loc"] == "body" and rng.random() < 0.5:
                 prm["type"] = "LocalDto"
     errors = []
-    for code in rng.sample([400, 404, 409, 500, 503], rng.choice([0, 0, 1, 2])):
+    for code in rng.sample([400, 404, 409, 500, 503, 304, 205], rng.choice([0, 0, 1, 2])):
         errors.append({"code": code, "descr": rng.choice(["", "bad", "not found here"])})
     if errors and rng.random() < 0.2:
         errors.append({"code": errors[0]["code"], "descr": "again"})
     response = None
     if rng.random() < 0.25:
-        response = {"code": rng.choice([200, 201, 202] if ret else [204, 202, 200]),
+        response = {"code": rng.choice([200, 201, 202, 204, 205] if ret else [204, 202, 200]),
                     "descr": rng.choice(["", "all good"])}
     return {
         "name": "M%d%s" % (idx, rng.choice(["Get", "Put", "Do", "List"])),
@@ -139,6 +143,8 @@ def gen_method(rng, idx, cfg, opts):
         "grouped": rng.random() < 0.4,
         "hidden_form": rng.choice(["", "", "(internal)", " not for the public", "(ops-only) text"]),
         "deprecated_form": rng.choice(["", "", " use the other one"]),
+        "template_context": rng.sample(["DEBUG", "MODE", "AUDIT", "TRACEID", "LIMITS"], rng.choice([0, 0, 0, 2, 3, 4]))
+        if opts.get("template_context", True) else [],
     }
 
 
@@ -201,13 +207,23 @@ def gen_project(rng, opts=None):
                                        not (m["verb"] == "GET" and x["loc"] in ("body", "form"))]
                         seen = set()
                         m["params"] = [x for x in m["params"] if not (x["name"] in seen or seen.add(x["name"]))]
+        shape = "plain"
+        if opts.get("ctl_shapes", True) and rng.random() < 0.4:
+            shape = rng.choice(["deprecated_doc", "fields_before_embed", "grouped_decl", "bare"])
         controllers.append({
+            "shape": shape,
             "name": "%sCtl%d" % (rng.choice(["B", "A", "Z"]), ci),
             "pkg": "ctl" if (ci % 2 == 0 or not opts.get("multipkg", True)) else "ctlb",
             "tag": rng.choice(["Tag%d" % ci, "Shared Tag", "T"]), "route": prefix,
             "security": gen_security(rng, schemes, opts.get("undeclared", False)) if opts.get("security", True) else [],
             "descr": rng.choice(["", "Controller description"]), "methods": methods,
         })
+    for c in controllers:
+        if c["shape"] == "bare":
+            # a controller struct without any comment: no tag, no route prefix, no security, no description
+            c.update({"tag": None, "route": "", "security": [], "descr": ""})
+        if c["shape"] == "grouped_decl" and c["tag"] is None:
+            c["tag"] = "T"
     # package-local types get a per-package name (same-named types in two packages are finding F16)
     for c in controllers:
         local = "Local%sDto" % c["pkg"].capitalize()
@@ -308,17 +324,24 @@ def render_method(c, m, types_pkg, method_body=None):
         lines.append("// @Deprecated" + m.get("deprecated_form", ""))
     for sc in m["security"]:
         lines.append(sec_annotation(sc))
+    for key in m.get("template_context", []):
+        lines.append("// @TemplateContext(%s, {enabled: true, level: \"%s\"}) per-route template context" % (key, key.lower()))
     if m["response"]:
         lines.append(("// @Response(%d) %s" % (m["response"]["code"], m["response"]["descr"])).rstrip())
     for e in m["errors"]:
         lines.append(("// @ErrorResponse(%d) %s" % (e["code"], e["descr"])).rstrip())
 
     def qual(t):
-        for ty in ["Item"] + ENUMS:
-            if ty in t and types_pkg:
-                return t.replace(ty, types_pkg + "." + ty)
-        return t
-    if m.get("grouped"):
+        if not types_pkg:
+            return t
+        # every identifier that names a type of the types package, also inside Page[Item]
+        # (checks declare further types named Item<Something> in the types package: ItemKind, ItemFull, ...)
+        return re.sub(r"\b(Item\w*|Page|%s)\b" % "|".join(ENUMS), lambda mo: types_pkg + "." + mo.group(1), t)
+    if m.get("groups"):
+        # explicit field grouping: [[0, 1, 2], [3]] renders `a, b, c T, d T`
+        ps = m["params"]
+        sig = ", ".join("%s %s" % (", ".join(ps[i]["name"] for i in g), qual(go_type(ps[g[0]]))) for g in m["groups"])
+    elif m.get("grouped"):
         parts, k = [], 0
         ps = m["params"]
         while k < len(ps):
@@ -355,8 +378,15 @@ def render_project(p, root, modpath, method_body=None, extra_imports=None):
     pkgs = sorted(set(c["pkg"] for c in p["controllers"]))
     os.makedirs(os.path.join(root, "types"), exist_ok=True)
     with open(os.path.join(root, "types", "types.go"), "w") as f:
-        f.write("package types\n\n// An item\ntype Item struct {\n\t// The name\n\tName string `json:\"name\" validate:\"required\"`\n"
-                "\tCount int `json:\"count\"`\n}\n")
+        f.write("package types\n\n%s// An item\ntype Item struct {\n\t// The name\n\tName string `json:\"name\" validate:\"required\"`\n"
+                "\tCount int `json:\"count\"`\n}\n" % ("import \"github.com/gopher-fleece/runtime\"\n\n" if p.get("ghost_controller") else ""))
+        if any("Page[" in (m["ret"] or "") for c in p["controllers"] for m in c["methods"]):
+            f.write("\n// A page of things\ntype Page[T any] struct {\n\tItems []T `json:\"items\"`\n\tTotal int `json:\"total\"`\n}\n")
+        if p.get("ghost_controller"):
+            # a controller (with a route) in a package the globs do NOT match (it is only loaded on demand, for its types):
+            # never part of the API, whatever the analysis has loaded by the time it runs again
+            f.write("\n// @Tag(Ghost)\n// @Route(/ghosttypes)\ntype GhostTypesCtl struct {\n\truntime.GleeceController\n}\n\n"
+                    "// @Method(GET)\n// @Route(/boo)\nfunc (c *GhostTypesCtl) Boo() (string, error) {\n\treturn \"\", nil\n}\n")
         if any(prm["type"] in ENUMS for c in p["controllers"] for m in c["methods"] for prm in m["params"]):
             f.write(ENUM_DECLS)
     for pkg in pkgs:
@@ -369,6 +399,7 @@ def render_project(p, root, modpath, method_body=None, extra_imports=None):
             stem = "all" if p.get("shared_files") else c["name"].lower()
             key = "%s_0.go" % stem
             lines = []
+            shape = c.get("shape", "plain")
             if c["descr"]:
                 lines.append("// " + c["descr"])
             if c["tag"] is not None:
@@ -377,7 +408,18 @@ def render_project(p, root, modpath, method_body=None, extra_imports=None):
                 lines.append("// @Route(%s)" % c["route"])
             for sc in c["security"]:
                 lines.append(sec_annotation(sc))
-            lines.append("type %s struct {\n\truntime.GleeceController\n}" % c["name"])
+            if shape == "deprecated_doc":
+                lines.append("// @Deprecated the whole controller is on its way out")
+            body = "struct {\n\truntime.GleeceController\n}"
+            if shape == "fields_before_embed":
+                body = "struct {\n\tlabel      string\n\tmaxResults int\n\truntime.GleeceController\n\tafter bool\n}"
+            if shape == "grouped_decl":
+                # a documented `type ( ... )` block: the block's comment belongs to the block, not to the member
+                lines = ["// Declarations of this resource", "// @Tag(BlockTag)", "// @Route(/blockroute)",
+                         "// @Security(%s, {scopes:[\"block\"]})" % p["config"]["schemes"][-1], "type ("] + \
+                        ["\t" + l for l in lines] + ["\t%s %s" % (c["name"], body.replace("\n", "\n\t")), ")"]
+            else:
+                lines.append("type %s %s" % (c["name"], body))
             files.setdefault(key, []).append("\n".join(lines))
             for m in c["methods"]:
                 mk = "%s_%d.go" % (stem, m["file"])
@@ -387,8 +429,16 @@ def render_project(p, root, modpath, method_body=None, extra_imports=None):
                for x in m["params"]) or any(local in (m["ret"] or "") for c in p["controllers"] if c["pkg"] == pkg
                                             for m in c["methods"]):
             with open(os.path.join(d, "models.go"), "w") as f:
-                f.write("package %s\n\n// A type declared next to the controllers, in a file the globs do not match\n"
-                        "type %s struct {\n\tLabel string `json:\"label\"`\n\tRank int `json:\"rank\"`\n}\n" % (pkg, local))
+                ghost = ""
+                if p.get("ghost_controller"):
+                    # a controller (with a route) in a file the globs do NOT match: never part of the API, whatever
+                    # the analysis has loaded on demand by the time it runs again
+                    ghost = ("\n// @Tag(Ghost)\n// @Route(/ghost%s)\ntype Ghost%sCtl struct {\n\truntime.GleeceController\n}\n\n"
+                             "// @Method(GET)\n// @Route(/boo)\nfunc (c *Ghost%sCtl) Boo() (string, error) {\n\treturn \"\", nil\n}\n"
+                             % (pkg, pkg.capitalize(), pkg.capitalize()))
+                f.write("package %s\n\n%s// A type declared next to the controllers, in a file the globs do not match\n"
+                        "type %s struct {\n\tLabel string `json:\"label\"`\n\tRank int `json:\"rank\"`\n}\n%s"
+                        % (pkg, "import \"github.com/gopher-fleece/runtime\"\n\n" if ghost else "", local, ghost))
         prio = "Local%sPrio" % pkg.capitalize()
         if files and any(prio == x.get("type") for c in p["controllers"] if c["pkg"] == pkg for m in c["methods"]
                          for x in m["params"]):
